@@ -138,6 +138,9 @@ class Product:
     def check(self, inst, ans):
         return run_checker(self.checker, ans, dfa_text(inst['D1']), dfa_text(inst['D2']), inst['len'])
 
+    def text_lean(self, inst, ans):
+        return {'op': 'chk_text', 'name': 'product_' + self.t, 'answer': ans, 'ref': dfa_text(inst['D1']), 'ref2': dfa_text(inst['D2']), 'len': inst['len']}
+
     def criterion(self, inst, ans):
         A = self.parse(ans)
         if A is None:
@@ -192,6 +195,9 @@ class Complement:
     def check(self, inst, ans):
         return run_checker(NBD.check_dfa_complement, ans, dfa_text(inst['D']), inst['len'])
 
+    def text_lean(self, inst, ans):
+        return {'op': 'chk_text', 'name': 'complement', 'answer': ans, 'ref': dfa_text(inst['D'])}
+
     def criterion(self, inst, ans):
         A = self.parse(ans)
         if A is None:
@@ -240,6 +246,9 @@ class Reverse:
     def check(self, inst, ans):
         return run_checker(NBD.check_dfa_reverse, dfa_text(inst['D']), ans, inst['len'])
 
+    def text_lean(self, inst, ans):
+        return {'op': 'chk_text', 'name': 'reverse', 'answer': ans, 'ref': dfa_text(inst['D']), 'len': inst['len']}
+
     def criterion(self, inst, ans):
         A = self.parse(ans)
         if A is None:
@@ -282,6 +291,9 @@ class Minimal:
 
     def check(self, inst, ans):
         return run_checker(NBD.check_dfa_minimal, dfa_text(inst['D']), ans, inst['len'])
+
+    def text_lean(self, inst, ans):
+        return {'op': 'chk_text', 'name': 'minimal', 'answer': ans, 'ref': dfa_text(inst['D']), 'len': inst['len']}
 
     def criterion(self, inst, ans):
         A = self.parse(ans)
@@ -334,6 +346,9 @@ class Nfa2Dfa:
 
     def check(self, inst, ans):
         return run_checker(NBN.check_nfa2dfa, nfa_text(inst['N']), ans)
+
+    def text_lean(self, inst, ans):
+        return {'op': 'chk_text', 'name': 'nfa2dfa', 'answer': ans, 'ref': nfa_text(inst['N'])}
 
     def criterion(self, inst, ans):
         A = self.parse(ans)
@@ -399,6 +414,9 @@ class Dfa2Regexp:
     def check(self, inst, ans):
         return run_checker(NB.check_dfa2regexp, dfa_text(inst['D']), ans, inst['len'])
 
+    def text_lean(self, inst, ans):
+        return {'op': 'chk_text', 'name': 'dfa2regexp', 'answer': ans, 'ref': dfa_text(inst['D']), 'len': inst['len']}
+
     def criterion(self, inst, ans):
         R = self.parse(ans)
         if R is None:
@@ -448,6 +466,9 @@ class Cyk:
 
     def check(self, inst, ans):
         return run_checker(NBC.check_cyk_matrix, simple_cfg_text(inst['G']), inst['w'], ans)
+
+    def text_lean(self, inst, ans):
+        return {'op': 'chk_text', 'name': 'cyk', 'answer': ans, 'ref': simple_cfg_text(inst['G']), 'word': inst['w']}
 
     def criterion(self, inst, ans):
         G, w = inst['G'], inst['w']
@@ -570,6 +591,10 @@ class Derivation:
     def check(self, inst, ans):
         return run_checker(NBC.check_cfg_derivation, simple_cfg_text(inst['G']), ans, inst['w'], self.kind)
 
+    def text_lean(self, inst, ans):
+        return {'op': 'chk_text', 'name': 'derivation', 'answer': ans, 'ref': simple_cfg_text(inst['G']), 'word': inst['w'],
+                'kind': 1 if self.kind == 'leftmost' else 2}
+
     def criterion(self, inst, ans):
         G = inst['G']
         forms = [[['v', c] if c.isupper() else ['t', c] for c in s.strip()] for s in ans.strip().split('=>')]
@@ -629,6 +654,10 @@ class Chomsky:
 
     def check(self, inst, ans):
         return run_checker(NBK.cfg_check_chomsky, simple_cfg_text(inst['G']), ans, self.phase, inst['start'], inst['len'])
+
+    def text_lean(self, inst, ans):
+        return {'op': 'chk_text', 'name': 'chomsky', 'answer': ans, 'ref': simple_cfg_text(inst['G']), 'phase': self.phase,
+                'start': inst['start'], 'len': inst['len']}
 
     def criterion(self, inst, ans):
         A = self.parse(ans)
